@@ -403,8 +403,9 @@ class PStutter(Pattern):
 
     def __next__(self):
         if self.pos >= self.count_current:
-            self.count_current = Pattern.value(self.count)
+            count = Pattern.value(self.count)
             self.value = next(self.pattern)
+            self.count_current = count
             self.pos = 0
         self.pos += 1
         return self.value
